@@ -112,14 +112,18 @@ def gen_case(ctx, version, keys, defaults):
     return good, cur, reject, fam
 
 
-def oracle(version, defaults, items, cur, ops, err):
-    """the property, on the set commands the stub saw. returns list of (kind, message)"""
+def oracle(version, defaults, items, cur, ops, err, user=None):
+    """the property, on the set commands the stub saw. returns list of (kind, message).
+    `user` is what the caller passed; an item of `items` whose name the caller did not pass was filled in by the
+    version's schema: it is one of the library's own defaults, not a user-supplied value"""
     import bellows.types as t
 
     bad = []
+    user = dict(items) if user is None else user
     dmap = {n: (i, v) for n, i, v, _m in defaults}
     disabled = [n for n, v in items if v is None]
-    overrides = {n: v for n, v in items if v is not None}
+    overrides = {n: v for n, v in items if v is not None and n in user}
+    injected = {n: v for n, v in items if v is not None and n not in user}
     if err is not None:
         outside = [n for n in disabled if n not in dmap]
         bad.append(("raised-disabled-outside-defaults" if outside and err.startswith("KeyError") else "raised",
@@ -135,13 +139,18 @@ def oracle(version, defaults, items, cur, ops, err):
         bad.append(("twice", f"a value is written twice: {svs}"))
     written = dict(scs)
     for n, (i, v) in dmap.items():
-        if n in overrides or n in disabled:
+        if n in overrides or n in disabled or n in injected:
             continue
         c = cur.get(i)
         if CAPACITY.search(n) and c is not None and i in written and written[i] < c:
             bad.append(("shrink", f"capacity setting {n} lowered from {c} to {written[i]}"))
         if i not in written and not (CAPACITY.search(n) and c is not None and c >= v):
             bad.append(("default-missing", f"default {n}={v} not written (current {c})"))
+    for n, v in injected.items():
+        i = int(t.EzspConfigId[n])
+        c = cur.get(i)
+        if CAPACITY.search(n) and c is not None and i in written and written[i] < c:
+            bad.append(("shrink-schema-default", f"capacity setting {n} lowered from {c} to {written[i]} by the version's own schema default (no user override)"))
     for n, v in overrides.items():
         i = int(t.EzspConfigId[n])
         if written.get(i) != v:
@@ -182,11 +191,12 @@ def validated_items_all(version):
     return [(str(k.schema) if hasattr(k, "schema") else str(k), None) for k in sch]
 
 
-def line_for(version, cur, items):
+def line_for(version, cur, items, user):
     import bellows.types as t
 
     c = ",".join(f"{i}={'x' if v is None else v}" for i, v in sorted(cur.items())) or "-"
-    o = ",".join(f"{n}:{int(t.EzspConfigId[n])}={'none' if v is None else v}" for n, v in items) or "-"
+    # `~` marks an item the caller did not pass: the version's schema filled it in
+    o = ",".join(f"{'' if n in user else '~'}{n}:{int(t.EzspConfigId[n])}={'none' if v is None else v}" for n, v in items) or "-"
     return f"c16 write {version} {c} {o}"
 
 
@@ -199,7 +209,7 @@ def run_cases(ctx, cases):
 
     impl = asyncio.run(go())
     items_l = [validated_items(v, ov) for v, ov, *_ in cases]
-    model = ctx.driver([line_for(c[0], c[2], it) for c, it in zip(cases, items_l)])
+    model = ctx.driver([line_for(c[0], c[2], it, c[1]) for c, it in zip(cases, items_l)])
     seen = set()
     for idx, (case, (ops, err), items) in enumerate(zip(cases, impl, items_l)):
         version, ov, cur, reject, fam = case
@@ -219,7 +229,9 @@ def run_cases(ctx, cases):
             ctx.count("with_disabled")
         if any(n not in dn for n, _ in items):
             ctx.count("override_outside_defaults")
-        for kind, msg in oracle(version, defaults, items, cur, ops, err):
+        if any(n not in ov for n, _ in items):
+            ctx.count("with_schema_filled_items")
+        for kind, msg in oracle(version, defaults, items, cur, ops, err, ov):
             ctx.count(f"oracle:{kind}")
             key = {"kind": kind}
             ctx.violation(msg, key, {"version": version, "overrides": ov, "current": {str(k): v for k, v in cur.items()},
@@ -267,7 +279,7 @@ def replay(ctx, obj):
     reject = {tuple(x) for x in r["reject"]}
     ops, err = asyncio.run(impl_write(r["version"], cur, r["overrides"], reject, r["status_family"]))
     items = validated_items(r["version"], r["overrides"])
-    bad = oracle(r["version"], defaults_of(r["version"]), items, cur, ops, err)
+    bad = oracle(r["version"], defaults_of(r["version"]), items, cur, ops, err, r["overrides"])
     print(f"replay: v{r['version']} overrides={r['overrides']}: ops={ops} err={err}")
     for k, m in bad:
         print("  FAILS:", m)
